@@ -85,6 +85,12 @@ CLAIMED = {
             "ones with a preemption bound; every execution is judged: delivered multiset == submitted, payloads, termination, no hang.",
             "Trusted: the virtual Queue/Process semantics in mc/sched.py (feeder flush before exit; timed get raises Empty only on an empty pipe); task bodies pure; no external kill.",
             "DESIGN.md §3 C12"),
+    "C13": ("bounded-exhaustive enumeration of JSON document pairs of one schema x glob pointer lists through the real apply_json_fragment / make_patch+apply_patch / apply_acl_filters / new_json_fragment_files against a set-theoretic reference on flattened paths",
+            "All (old, fragment) pairs whose union fills <=1-2 leaf slots at depth <=3 over key sets including '/', '~', '|', '*' keys x all 169 lists "
+            "of 1-2 patterns: selected parts equal the fragment, the rest equals old, re-merging changes nothing; all ordered document pairs "
+            "(incl. all arrays <=3 elements) round-trip through make_patch/apply_patch; filters return sub-documents; two-generator chains.",
+            "Trusted: mc/ref/jsonref.py (own RFC 6901 parser, glob matcher, flattening); array-hole requests counted, not judged.",
+            "DESIGN.md §3 C13"),
     "C14": ("bounded-exhaustive enumeration of RouteMap programs over the complete documented R.*/rule.* alphabet x entity variants x 3 vendors through the real generators with ACL enforcement",
             "The complete one-statement space (62 conditions x 92 actions x huawei/arista/cumulus, 8 entity variants, 5 result forms) in quick, "
             "two-condition/two-action/two-statement combinations in thorough: no AclError, parse-back nesting equals yielded nesting, "
@@ -92,6 +98,22 @@ CLAIMED = {
             "differential attribution on the raw generator stream.",
             "Trusted: mc/ref/rplref.py line grammars for references/definitions; domain: names exist and have the right type.",
             "DESIGN.md §3 C14"),
+    "C15": ("bounded-exhaustive enumeration of (topology, rule registry, handler table) x all registration permutations through the real MeshExecutor, against a reference executor, a mirrored-view oracle and permutation invariance; complete merger-law tables",
+            "12-15 families of topologies (2-5 devices, 0-3 parallel links) x registries of <=3 device/direct/indirect/virtual rules with name templates "
+            "and filters x table-driven handlers: each side's peer must mirror the other side's assignment, every registration order gives the same "
+            "BgpConfig or an error in all, results equal a reference executor; merger laws complete over small value domains for all 20 model classes.",
+            "Trusted: mc/ref/meshref.py (reference executor, merge laws, declared-merger table); BgpConfig.peers compared as a multiset.",
+            "DESIGN.md §3 C15"),
+    "C16": ("differential bounded-exhaustive enumeration: shipped corpus (+ comment rulebook), per-vendor cross products, and all labelled forests over rows of every custom-logic rule, through both front ends and the file workers",
+            "For every (old,new,hw): cmd_paths of the file front end == cmd_paths of the device front end as ordered lists, diff entries equal, "
+            "file_patch_worker/file_diff_worker on real temp files agree with the device rendering; exceptions must be two-sided.",
+            "Trusted: nothing hand-written is expected (both sides are annet code); cause labels are informational.",
+            "DESIGN.md §3 C16"),
+    "C17": ("bounded-exhaustive enumeration of forests over mechanically derived row universes for 16 hardware classes through the real implicit.config/merge_dicts and the shipped rulebooks, against an independent completion reference",
+            "All forests <=5-6 nodes per class: explicit rows kept, completion idempotent, default present iff no row of the rule's pattern at that place; "
+            "pairs (t,u): no patch command for a default absent from both sides; one recorded known finding (default next to another explicit value).",
+            "Trusted: mc/ref/implicitref.py (own parser and matcher); clause 4 judged where both sides have the parent block (stated premise).",
+            "DESIGN.md §3 C17"),
     "C18": ("exhaustive enumeration of the finite device database (168 sequences x synthesised models x vendor registration orders x software strings) on the real HardwareView/Registry/RulebookProvider",
             "The space is finite and covered completely: every devdb sequence gets validated model strings; truth of all sequences and "
             "abbreviations, all template predicates, vendor choice under all rotations/permutations of registration, and rulebook "
